@@ -370,10 +370,10 @@ func zzvAddrBytes(s zzvShape, rng *mrand.Rand) []byte {
 		for i := range d {
 			d[i] = alpha[rng.Intn(len(alpha))]
 		}
-		switch s.Acls {
-		case "bracketed":
+		switch {
+		case s.Acls == "bracketed" && len(d) >= 3:
 			d[0], d[len(d)-1] = '[', ']'
-		case "unbalanced":
+		case s.Acls == "unbalanced" && len(d) >= 1:
 			d[len(d)/2] = ']'
 		}
 		return append([]byte{byte(s.Alen)}, d...)
